@@ -962,9 +962,9 @@ variable (T : Tables) {g : TextPos → TextPos} (txt ws : Bytes)
 theorem parseCtx_wsg (hws : ∀ b ∈ ws, byteIsSpace T b = true)
     (H : PosSh g ws.length txt (ws ++ txt))
     (hbom : Stream.startsWith ⟨0, txt⟩ Lit.bom = false)
-    (hdecl : Stream.startsWith ⟨0, txt⟩ Lit.xmlDecl = false)
+    (hdecl : Stream.startsWithXmlDecl T ⟨0, txt⟩ = false)
     (hbom' : Stream.startsWith ⟨0, ws ++ txt⟩ Lit.bom = false)
-    (hdecl' : Stream.startsWith ⟨0, ws ++ txt⟩ Lit.xmlDecl = false) (opt : Opt) (d : Nat) :
+    (hdecl' : Stream.startsWithXmlDecl T ⟨0, ws ++ txt⟩ = false) (opt : Opt) (d : Nat) :
     ESim g (NZ opt.positions) (shC ws.length) (parseCtx T txt d opt) (parseCtx T (ws ++ txt) d opt) := by
   unfold parseCtx
   refine ESim.bind (initCtx_she H opt) (fun c0 _ h0 => ?_)
@@ -989,9 +989,9 @@ theorem parseCtx_wsg (hws : ∀ b ∈ ws, byteIsSpace T b = true)
 theorem parse_wsg (hws : ∀ b ∈ ws, byteIsSpace T b = true)
     (H : PosSh g ws.length txt (ws ++ txt))
     (hbom : Stream.startsWith ⟨0, txt⟩ Lit.bom = false)
-    (hdecl : Stream.startsWith ⟨0, txt⟩ Lit.xmlDecl = false)
+    (hdecl : Stream.startsWithXmlDecl T ⟨0, txt⟩ = false)
     (hbom' : Stream.startsWith ⟨0, ws ++ txt⟩ Lit.bom = false)
-    (hdecl' : Stream.startsWith ⟨0, ws ++ txt⟩ Lit.xmlDecl = false) (opt : Opt) :
+    (hdecl' : Stream.startsWithXmlDecl T ⟨0, ws ++ txt⟩ = false) (opt : Opt) :
     EOkTo g (shiftDoc ws.length opt.positions) (parse T txt opt) (parse T (ws ++ txt) opt) := by
   unfold parse
   refine ESim.bind (parseCtx_wsg T txt ws hws H hbom hdecl hbom' hdecl' opt depthFuel)
